@@ -168,11 +168,11 @@ func specDefaultKnown(t parser.ValueType) bool {
 // to that copy.  A single value is handed on as it is.
 //@ func (*transpiler).evaluateAssignedValues
 //@   requires[C13] every-value-is-there: forall(k, 0, len(expressions), expressions[k] != nil)
-//@   loop @"range expressions" invariant[C02,C04] evaluated-and-copied-so-far: len(values) == len(expressions) && calls(evaluateExpression) == rangeindex + 1 && forall(k, 0, rangeindex + 1, arg(evaluateExpression, k, 1) == expressions[k] && arg(evaluateExpression, k, 2)) && (len(expressions) <= 1 ==> calls(VarDefinition) == 0 && calls(VarEvaluation) == 0 && forall(k, 0, rangeindex + 1, values[k] == res(evaluateExpression, k, 0).firstValue())) && (len(expressions) > 1 ==> calls(VarDefinition) == rangeindex + 1 && calls(VarEvaluation) == rangeindex + 1 && forall(k, 0, rangeindex + 1, arg(VarDefinition, k, 0) == "_mv" + itoa(k) && arg(VarDefinition, k, 1) == res(evaluateExpression, k, 0).firstValue() && !arg(VarDefinition, k, 2) && arg(VarEvaluation, k, 0) == "_mv" + itoa(k) && arg(VarEvaluation, k, 1) && !arg(VarEvaluation, k, 2) && values[k] == res(VarEvaluation, k, 0) && seq(evaluateExpression, k) < seq(VarDefinition, k) && seq(VarDefinition, k) < seq(VarEvaluation, k)))
+//@   loop @"range expressions" invariant[C02,C04,C01] evaluated-and-copied-so-far: len(values) == len(expressions) && calls(evaluateExpression) == rangeindex + 1 && forall(k, 0, rangeindex + 1, arg(evaluateExpression, k, 1) == expressions[k] && arg(evaluateExpression, k, 2)) && (len(expressions) <= 1 ==> calls(VarDefinition) == 0 && calls(VarEvaluation) == 0 && forall(k, 0, rangeindex + 1, values[k] == res(evaluateExpression, k, 0).firstValue())) && (len(expressions) > 1 ==> calls(VarDefinition) == rangeindex + 1 && calls(VarEvaluation) == rangeindex + 1 && forall(k, 0, rangeindex + 1, arg(VarDefinition, k, 0) == "_mv" + itoa(k) && arg(VarDefinition, k, 1) == res(evaluateExpression, k, 0).firstValue() && !arg(VarDefinition, k, 2) && arg(VarEvaluation, k, 0) == "_mv" + itoa(k) && arg(VarEvaluation, k, 1) && !arg(VarEvaluation, k, 2) && values[k] == res(VarEvaluation, k, 0) && seq(evaluateExpression, k) < seq(VarDefinition, k) && seq(VarDefinition, k) < seq(VarEvaluation, k)))
 //@   ensures[C02,C13] one-value-per-expression: err == nil ==> len(result0) == len(expressions)
 //@   ensures[C02,C04] every-value-once-in-source-order: err == nil ==> calls(evaluateExpression) == len(expressions) && forall(k, 0, len(expressions), arg(evaluateExpression, k, 1) == expressions[k] && arg(evaluateExpression, k, 2))
 //@   ensures[C02] a-single-value-is-handed-on-as-it-is: err == nil && len(expressions) == 1 ==> calls(VarDefinition) == 0 && result0[0] == res(evaluateExpression, 0, 0).firstValue()
-//@   ensures[C02] several-values-are-copied-before-anything-is-written: err == nil && len(expressions) > 1 ==> calls(VarDefinition) == len(expressions) && calls(VarEvaluation) == len(expressions) && forall(k, 0, len(expressions), arg(VarDefinition, k, 0) == "_mv" + itoa(k) && arg(VarDefinition, k, 1) == res(evaluateExpression, k, 0).firstValue() && !arg(VarDefinition, k, 2) && arg(VarEvaluation, k, 0) == "_mv" + itoa(k) && !arg(VarEvaluation, k, 2) && result0[k] == res(VarEvaluation, k, 0) && seq(evaluateExpression, k) < seq(VarDefinition, k))
+//@   ensures[C02,C01] several-values-are-copied-before-anything-is-written: err == nil && len(expressions) > 1 ==> calls(VarDefinition) == len(expressions) && calls(VarEvaluation) == len(expressions) && forall(k, 0, len(expressions), arg(VarDefinition, k, 0) == "_mv" + itoa(k) && arg(VarDefinition, k, 1) == res(evaluateExpression, k, 0).firstValue() && !arg(VarDefinition, k, 2) && arg(VarEvaluation, k, 0) == "_mv" + itoa(k) && !arg(VarEvaluation, k, 2) && result0[k] == res(VarEvaluation, k, 0) && seq(evaluateExpression, k) < seq(VarDefinition, k))
 //
 //@ func (*transpiler).evaluateVarDefinition
 //@   requires[C13] one-value-per-variable: len(definition.Values()) == len(definition.Variables())
@@ -205,7 +205,7 @@ func specDefaultKnown(t parser.ValueType) bool {
 //
 //@ func (*transpiler).evaluateFor
 //@   ensures[C01,C04,C16] protocol-order: result == nil ==> calls(ForStart) == 1 && calls(ForCondition) == 1 && calls(evaluateBlock) == 1 && calls(ForEnd) == 1 && calls(evaluateExpression) == 1 && seq(ForStart, 0) < seq(evaluateExpression, 0) && seq(evaluateExpression, 0) < seq(ForCondition, 0) && seq(ForCondition, 0) < seq(evaluateBlock, 0) && seq(evaluateBlock, 0) < seq(ForEnd, 0)
-//@   ensures[C01,C04] condition-once-per-iteration-after-increment: result == nil ==> arg(evaluateExpression, 0, 1) == forStatement.Condition() && arg(evaluateExpression, 0, 2) && arg(ForCondition, 0, 0) == res(evaluateExpression, 0, 0).firstValue() && arg(evaluateBlock, 0, 1) == asBlockFor(forStatement)
+//@   ensures[C01,C04,C03] condition-once-per-iteration-after-increment: result == nil ==> arg(evaluateExpression, 0, 1) == forStatement.Condition() && arg(evaluateExpression, 0, 2) && arg(ForCondition, 0, 0) == res(evaluateExpression, 0, 0).firstValue() && arg(evaluateBlock, 0, 1) == asBlockFor(forStatement)
 //@   ensures[C01,C04] init-before-loop: result == nil && forStatement.Init() != nil && forStatement.Increment() == nil ==> calls(evaluate) == 1 && arg(evaluate, 0, 1) == forStatement.Init() && seq(evaluate, 0) < seq(ForStart, 0)
 //@   ensures[C01,C04] increment-guarded-before-condition: result == nil && forStatement.Increment() != nil ==> calls(ForIncrementStart) == 1 && calls(ForIncrementEnd) == 1 && seq(ForStart, 0) < seq(ForIncrementStart, 0) && seq(ForIncrementStart, 0) < seq(evaluate, calls(evaluate) - 1) && seq(evaluate, calls(evaluate) - 1) < seq(ForIncrementEnd, 0) && seq(ForIncrementEnd, 0) < seq(evaluateExpression, 0) && arg(evaluate, calls(evaluate) - 1, 1) == forStatement.Increment()
 //@   ensures[C01,C04] no-increment-no-guard: result == nil && forStatement.Increment() == nil ==> calls(ForIncrementStart) == 0 && calls(ForIncrementEnd) == 0
